@@ -37,6 +37,12 @@ CHECKS["C08"] = ("fault_enumeration",
     "Faults are process death and reported errors at the calls the library issues (audit cross-check makes un-intercepted mutations a harness error); no reordering of completed writes by the OS.",
     "DESIGN.md §3 C08")
 
+CHECKS["C09"] = ("model_checking",
+    "stateless model checking of real threads under a controlled scheduler (sys.settrace baton + scheduler-aware library locks), iterative preemption bounding",
+    "Every schedule with at most 1 preemption (quick; 2 thorough) of 2-3 threads calling memoized functions is executed on the real runner/storage/cache code for {cold, warm store, warm cache} x {same key, different keys} x 4 backends, with scheduling points at every line of the runner, call-stack, storage and cache code and at every library lock acquisition; additionally every schedule with at most 2 (thorough 3) preemptions at runner granularity (line points in the runner, call points in storage) for the cold-store scenarios. Per execution: values, no escaped exception, exactly one body run per un-memoized call, no deadlock/livelock, cache accounting consistent and final cache equal to a sequential outcome.",
+    "Switches happen only at line boundaries of the traced files and at lock acquisitions (thorough adds opcode-level points in MemoryCache); pure string/path helpers are atomic; no Python race detector exists in the image; schedules beyond the preemption bound are not explored.",
+    "DESIGN.md §3 C09")
+
 PENDING = {}
 
 
